@@ -4,7 +4,7 @@
 # Writes <seed_dir>/confirm.log and prints a one-line verdict.
 set -u
 d="$1"
-cmd="${DEMO_CMD:-$(grep -ho "cargo test -p [a-z_-]* --offline --test [a-z_]*" "$d/README.md" | sort -u | head -1)}"
+cmd="${DEMO_CMD:-$(grep -ho "cargo test -p [a-z_-]* --offline --test [a-z0-9_]*" "$d/README.md" | sort -u | head -1)}"
 export CARGO_TARGET_DIR=/tmp/confirm/target
 cd /tmp/confirm || exit 2
 git checkout -q -- . ; git clean -fdq -e target
